@@ -199,6 +199,34 @@ pub fn judge(case: &Case, l: &mut Local) {
                     }
                 }
             }
+            // the header parsers called directly on the block contents: same text back from the wrapper and from
+            // the inner header's own Display; the accessors answer what was written
+            if let Some(b2) = get(&bx, "2")
+                && let Ok(Ok(h)) = guard(|| swift_mt_message::ApplicationHeader::parse(&b2))
+            {
+                let whole = h.to_string();
+                let inner = match &h {
+                    swift_mt_message::ApplicationHeader::Input(x) => x.to_string(),
+                    swift_mt_message::ApplicationHeader::Output(x) => x.to_string(),
+                };
+                if whole != b2 || inner != b2 {
+                    v(l, "2", "direct-display-differs", "-", format!("ApplicationHeader::parse({b2:?}) displays as {whole:?}, its inner header as {inner:?}"), case);
+                }
+                if h.message_type() != code {
+                    v(l, "2", "accessor-wrong", "message_type", format!("ApplicationHeader::message_type() = {:?} for block 2 {b2:?}", h.message_type()), case);
+                }
+                // priority: input headers carry it at position 16, output headers optionally at 46
+                let want = if b2.starts_with('I') { b2.get(16..17) } else { b2.get(46..47) };
+                if h.priority() != want {
+                    v(l, "2", "accessor-wrong", "priority", format!("ApplicationHeader::priority() = {:?} for block 2 {b2:?}", h.priority()), case);
+                }
+            }
+            if let Some(b1) = get(&bx, "1")
+                && let Ok(Ok(h)) = guard(|| swift_mt_message::BasicHeader::parse(&b1))
+                && h.to_string() != b1
+            {
+                v(l, "1", "direct-display-differs", "-", format!("BasicHeader::parse({b1:?}) displays as {:?}", h.to_string()), case);
+            }
             // second generation: the library's own output must be read back with the same envelope (a
             // spelling it writes but cannot read shows only here)
             match guard(|| (ops.parse_full)(&y)) {
